@@ -1442,6 +1442,35 @@ func propPerm(c SliceCase, r *pbt.R) error {
 		}
 		moved = moved || !same(got, in)
 	}
+	// the same on a wide element type (seven machine words): an implementation may treat wide elements differently
+	// (permute indices through a scratch buffer, copy block-wise)
+	{
+		type wide struct {
+			I    int
+			Pad  [5]int
+			Tail int
+		}
+		win := make([]wide, n)
+		for i, e := range in {
+			win[i] = wide{I: i, Pad: [5]int{e.V, i, -i, 7, e.V}, Tail: ^i}
+		}
+		got := gogu.Shuffle(append([]wide(nil), win...))
+		if len(got) != n {
+			return fmt.Errorf("Shuffle of %d wide (7-word) elements returned %d elements", n, len(got))
+		}
+		seen := make([]int, n)
+		for _, e := range got {
+			if e.I < 0 || e.I >= n || win[e.I] != e {
+				return fmt.Errorf("Shuffle of %d wide (7-word) elements: %v is not an element of the input", n, e)
+			}
+			seen[e.I]++
+		}
+		for i, k := range seen {
+			if k != 1 {
+				return fmt.Errorf("Shuffle of %d wide (7-word) elements: input element %d occurs %d times in the result, want once", n, i, k)
+			}
+		}
+	}
 	if n >= 2 {
 		r.NonTrivial()
 		if moved {
@@ -1663,7 +1692,7 @@ func TestProp(t *testing.T) {
 		&pbt.Check[SliceCase]{
 			Name: "perm",
 			Rule: ident + "Reverse (on a copy; result snapshotted) equals the reference reversal and applied twice gives the input back; ReverseStr likewise on the valid UTF-8 string whose runes are runeTab[v%16] " +
-				"(1- to 4-byte runes; invalid UTF-8 is outside the scope: a string has no characters to reverse there); Shuffle (called twice) returns every input element exactly once. " +
+				"(1- to 4-byte runes; invalid UTF-8 is outside the scope: a string has no characters to reverse there); Shuffle (called twice, and once more on a 7-word struct element type) returns every input element exactly once. " +
 				"Enumerated: " + sl + "; " + rnd + ". Non-trivial = length >= 2." + dist,
 			Enum: enumSliceCase, Gen: genSliceCase, Prop: propPerm, OutOfEnum: sliceCaseOutOfEnum,
 			RapidQuick: 1200, RapidThorough: 30000,
